@@ -18,6 +18,10 @@
 (*   table_pop       a call with a subset parameter removes entries from the module table          *)
 (*   rng_no_reseed   generators draw from the global generator without re-seeding                  *)
 (*   race            with Threads > 1 a kernel may return a torn result                             *)
+(*   result_is_cache the function memoises its result and hands out the CACHED OBJECT itself       *)
+(* CallerWritesResult: the caller edits the last result in place.  A result must not alias hidden  *)
+(* library state: the action leaves tables / cache / defaults / dirty unchanged in the intended     *)
+(* design; in the result_is_cache twin the cached object becomes dirty and later calls return it.  *)
 EXTENDS HistOps
 
 CONSTANTS Funcs,        \* ordinary analysis functions
@@ -33,8 +37,9 @@ PD == Params \cup {"dflt"}
 Calls == [f : AllF, p : PD, sig : Sigs]
 D0 == "p0"                 \* the value of the pristine default object (p0 \in Params: default == explicit p0)
 
-VARIABLES hist, outs, jit, cache, defaults, tables, rng, last
-vars == <<hist, outs, jit, cache, defaults, tables, rng, last>>
+VARIABLES hist, outs, jit, cache, defaults, tables, rng, last,
+          dirty      \* memoised result objects <<f, effective parameter, sig>> that a caller has edited in place
+vars == <<hist, outs, jit, cache, defaults, tables, rng, last, dirty>>
 
 Eff(p) == IF p = "dflt" THEN D0 ELSE p
 Fresh(c) == <<c.f, <<Eff(c.p), {}>>, c.sig>>      \* <<function, <<parameter, hidden state read>>, signature>>
@@ -45,7 +50,7 @@ Init == /\ hist = <<>> /\ outs = <<>>
         /\ defaults = [f \in AllF |-> {}]          \* extra items appended to f's default object
         /\ tables = {"k1", "k2"}
         /\ rng = 0                                 \* 0 = as the user left it; n > 0 = advanced n times
-        /\ last = <<>>
+        /\ last = <<>> /\ dirty = {}
 
 Captured(f, sig) == IF \E i \in 1..Len(cache[f]) : cache[f][i][1] = sig
                     THEN cache[f][CHOOSE i \in 1..Len(cache[f]) : cache[f][i][1] = sig][2] ELSE "none"
@@ -57,6 +62,7 @@ Impl(c) ==
     [] MUT = "table_pop" /\ c.p = "dflt" /\ c.f \in Funcs /\ tables # {"k1", "k2"} -> {<<c.f, <<D0, tables>>, c.sig>>}
     [] MUT = "rng_no_reseed" /\ c.f \in Gens /\ rng # 0 -> {<<c.f, <<Eff(c.p), {ToString(rng)}>>, c.sig>>}
     [] MUT = "race" /\ Threads > 1 /\ c.f \in Funcs -> {Fresh(c), <<c.f, <<"torn", {}>>, c.sig>>}
+    [] MUT = "result_is_cache" /\ <<c.f, Eff(c.p), c.sig>> \in dirty -> {<<c.f, <<"edited_by_caller", {}>>, c.sig>>}
     [] OTHER -> {Fresh(c)}
 
 Call(c) ==
@@ -70,8 +76,17 @@ Call(c) ==
   /\ tables' = IF MUT = "table_pop" /\ c.p \notin {"dflt", D0} /\ c.f \in Funcs THEN tables \ {"k2"} ELSE tables
   /\ rng' = IF c.f \in Gens /\ MUT # "rng_no_reseed" THEN 100 + Len(hist)     \* re-seeded: a function of the call only
             ELSE IF c.f \in Gens \cup Unseeded THEN rng + 1 ELSE rng
+  /\ UNCHANGED dirty
 
-Next == \E c \in Alphabet : Call(c)
+\* the caller overwrites the result of the last call in place (fills the array, adds attrs keys)
+CallerWritesResult ==
+  /\ Len(hist) > 0 /\ last # <<"written">>
+  /\ LET c == hist[Len(hist)] IN
+       dirty' = IF MUT = "result_is_cache" /\ c.f \in Funcs THEN dirty \cup {<<c.f, Eff(c.p), c.sig>>} ELSE dirty
+  /\ last' = <<"written">>
+  /\ UNCHANGED <<hist, outs, jit, cache, defaults, tables, rng>>
+
+Next == (\E c \in Alphabet : Call(c)) \/ CallerWritesResult
 Spec == Init /\ [][Next]_vars
 
 \* ------------------------------------------------------------------ properties
@@ -85,6 +100,8 @@ ResultDependsOnlyOnArgs == [][StepOK]_vars
 \* the same, stated separately
 ResultIsFresh == [][hist' # hist /\ hist'[Len(hist')].f \notin Unseeded => last' = Fresh(hist'[Len(hist')])]_vars
 HiddenStateFrozen == [][defaults' = defaults /\ tables' = tables]_vars
+\* writing into a result reaches no hidden state
+CallerWriteIsLocal == [][hist' = hist => UNCHANGED <<tables, cache, defaults, dirty, jit>>]_vars
 JitOnlyGrows == [][\A f \in AllF : jit[f] \subseteq jit'[f] /\
                      (hist' # hist => jit'[f] \ jit[f] \subseteq (IF f = hist'[Len(hist')].f THEN {hist'[Len(hist')].sig} ELSE {}))]_vars
 RepeatIdempotent == \A i, j \in 1..Len(hist) : hist[i] = hist[j] /\ hist[i].f \notin Unseeded => outs[i] = outs[j]
